@@ -21,6 +21,8 @@ impl Plugin for LinkConditionerPlugin {
 pub(super) struct LinkConditioner {
     rng: Rng,
     heap: BinaryHeap<TimedMessage>,
+    /// Number of messages inserted so far, used to keep messages with equal timestamps in insertion order.
+    next_order: u64,
 }
 
 impl LinkConditioner {
@@ -53,9 +55,11 @@ impl LinkConditioner {
 
         self.heap.push(TimedMessage {
             timestamp,
+            order: self.next_order,
             channel_id,
             message,
         });
+        self.next_order += 1;
     }
 
     pub(super) fn pop(&mut self, now: Instant) -> Option<(u8, Bytes)> {
@@ -71,13 +75,20 @@ impl LinkConditioner {
 #[derive(Clone, Eq, PartialEq)]
 struct TimedMessage {
     timestamp: Instant,
+    /// Insertion order, breaks ties between equal timestamps.
+    order: u64,
     channel_id: u8,
     message: Bytes,
 }
 
 impl Ord for TimedMessage {
     fn cmp(&self, other: &TimedMessage) -> Ordering {
-        other.timestamp.cmp(&self.timestamp)
+        // The heap is a max-heap, so reverse to pop the earliest message first.
+        // Messages with equal timestamps are popped in the order they were inserted.
+        other
+            .timestamp
+            .cmp(&self.timestamp)
+            .then_with(|| other.order.cmp(&self.order))
     }
 }
 
